@@ -90,3 +90,23 @@ func SpecDec(v int64) string { panic("abstract spec function") }
 //@   ensures unknown_count_entry: old(zl.length) == 65535 && !old(zl.end) && old(zl.buf.s[zl.buf.i]) != 0xFF ==> result != nil && !zl.end
 //@   ensures known_count_entry: old(zl.length) != 65535 && !old(zl.end) && old(zl.pos) < old(zl.length) ==> result != nil && zl.pos == old(zl.pos) + 1
 //@   ensures ended_stays_ended: old(zl.end) ==> result == nil
+
+// ---- listpack element count (listpack.c lpLength): the 16-bit header field holds the count only
+// ---- up to 65534; 65535 means "unknown", the entries have to be walked up to the end marker.
+//   lpHdr       the header field as read
+//   lpCounted   the result of the last walk; lpCountCalls the number of walks
+//@ func NewListpack
+//@   arith int
+//@   properties C03
+//@   replay rdb_listpackCount@pkg/rdb
+//@   ghost var lpHdr mathint = 0
+//@   ghost var lpCounted mathint = 0
+//@   ghost var lpCountCalls mathint = 0
+//@   requires header: len(data) >= 6
+//@   modifies lpHdr, lpCounted, lpCountCalls, lpWalked
+//@   set lpHdr = result after call Uint16
+//@   set lpCounted = result after call countElements
+//@   set lpCountCalls = lpCountCalls + 1 after call countElements
+//@   ensures fresh_cursor: result != nil && fresh(result) && result.p == 6
+//@   ensures a_known_count_comes_from_the_header: lpHdr != 65535 ==> result.numElements == lpHdr
+//@   ensures an_unknown_count_is_established_by_walking_the_entries: lpHdr == 65535 ==> lpCountCalls == old(lpCountCalls) + 1 && result.numElements == lpCounted
